@@ -351,18 +351,24 @@ Section PolyWrite.
     end.
 End PolyWrite.
 
-(* Poly1Dom::read(i, P):  long deg; i >> deg; init(P, Degree(deg)); for (; deg >= 0; --deg) _domain.read(i, P[deg]);
-   the coefficients come highest degree first; the result is the vector low degree first.
-   (deg < 0 makes init index P[size-1] of an empty vector: undefined, modelled as the empty vector.) *)
+(* Poly1Dom::read(i, P), body in /repo since frag/C19.fix-5:
+     long deg = -1; i >> deg; if (!i) return i; if (deg < 0) { P.resize(0); return i; }
+     init(P, Degree(deg)); for (; deg >= 0; --deg) _domain.read(i, P[deg]);
+   the coefficients come highest degree first; the result is the vector low degree first.  `old` = what P held: it is
+   what P still holds when no degree could be extracted (end of input, failed stream, bad text).
+   (poly_read builds the vector by accumulation; poly_read_into below follows the stores into P.) *)
+Definition LONG_MIN : Z := - 2 ^ 63.       (* `long` of the LP64 ABI *)
+Definition LONG_MAX : Z := 2 ^ 63 - 1.
 Fixpoint poly_read_coeffs {E} (rd : stream -> E * stream) (n : nat) (s : stream) (acc : list E)
   : list E * stream :=
   match n with
   | O => (acc, s)
   | S m => let '(c, s1) := rd s in poly_read_coeffs rd m s1 (c :: acc)
   end.
-Definition poly_read {E} (rd : stream -> E * stream) (s : stream) (garbage : Z) : list E * stream :=
-  let '(deg, s1) := num_get (- 2 ^ 63) (2 ^ 63 - 1) s garbage in
-  if deg <? 0 then ([], s1)
+Definition poly_read {E} (rd : stream -> E * stream) (s : stream) (old : list E) : list E * stream :=
+  let '(deg, s1) := num_get LONG_MIN LONG_MAX s (- 1) in
+  if failb s1 then (old, s1)
+  else if deg <? 0 then ([], s1)
   else poly_read_coeffs rd (S (Z.to_nat deg)) s1 [].
 
 (* The text format Poly1Dom::read expects.  NO function of the library writes it (Poly1Dom::write prints
@@ -507,11 +513,33 @@ Fixpoint poly_store_coeffs {E} (rd : stream -> E * stream) (n : nat) (s : stream
   | O => (P, s)
   | S m => let '(c, s1) := rd s in poly_store_coeffs rd m s1 (list_set P m c)
   end.
-Definition poly_read_into {E} (dflt zero one : E) (rd : stream -> E * stream) (s : stream) (garbage : Z) (old : list E)
+Definition poly_read_into {E} (dflt zero one : E) (rd : stream -> E * stream) (s : stream) (old : list E)
   : list E * stream :=
-  let '(deg, s1) := num_get (- 2 ^ 63) (2 ^ 63 - 1) s garbage in
-  if deg <? 0 then ([], s1)
+  let '(deg, s1) := num_get LONG_MIN LONG_MAX s (- 1) in             (* long deg = -1; i >> deg; *)
+  if failb s1 then (old, s1)                                         (* if (!i) return i; *)
+  else if deg <? 0 then ([], s1)                                     (* P.resize(0) *)
   else let n := S (Z.to_nat deg) in poly_store_coeffs rd n s1 (poly_init_degree dflt zero one old n).
+
+(* HISTORY: the body that was in /repo before frag/C19.fix-5:  long deg; i >> deg; init(P, Degree(deg)); for ...
+   When the extraction's sentry fails (stream not good, or only white space left) deg is never assigned; for deg < 0
+   init() resizes P to 0 and writes P[size()-1].  Both are undefined behaviour (a segmentation fault in practice): None. *)
+Definition num_get_unassigned (s : stream) : bool := negb (good s) || is_nil (drop_ws (rest s)).
+Definition poly_read_into_v0 {E} (dflt zero one : E) (rd : stream -> E * stream) (s : stream) (old : list E)
+  : option (list E * stream) :=
+  if num_get_unassigned s then None
+  else let '(deg, s1) := num_get LONG_MIN LONG_MAX s 0 in
+       if deg <? 0 then None
+       else let n := S (Z.to_nat deg) in Some (poly_store_coeffs rd n s1 (poly_init_degree dflt zero one old n)).
+(* a sequence of reads into one variable that stops at the first undefined one *)
+Fixpoint read_many_into_opt {A} (rd : stream -> A -> option (A * stream)) (n : nat) (s : stream) (cur : A)
+  : list (A * stream) * bool :=
+  match n with
+  | O => ([], false)
+  | S m => match rd s cur with
+           | None => ([], true)
+           | Some (x, s1) => let '(t, u) := read_many_into_opt rd m s1 x in ((x, s1) :: t, u)
+           end
+  end.
 
 (* ------------------------------------------------------------------ Z-level entry points for extraction *)
 Definition res3 (r : Z * stream) := (fst r, rest (snd r), eofb (snd r), failb (snd r)).
@@ -557,7 +585,7 @@ Definition x_ri_rt (k : nat) (hex : bool) (a : Z) (tail : list Z) :=
 Definition x_poly_write (var : list Z) (bal : bool) (p : Z) (R : list Z) :=
   poly_write var elt_write (map (x_init bal p) R).
 Definition x_poly_read (bal : bool) (p : Z) (l : list Z) :=
-  let '(P, s) := poly_read (elt_read (x_init bal p)) (from_chars l) 0 in
+  let '(P, s) := poly_read (elt_read (x_init bal p)) (from_chars l) [] in
   (P, rest s, eofb s, failb s).
 Definition x_poly_parse (var l : list Z) := poly_parse var l.
 Definition x_poly_degfmt (bal : bool) (p : Z) (R : list Z) :=
@@ -577,11 +605,24 @@ Definition x_ru_seqd (k : nat) (hex : bool) (old : Z) (n : nat) (l : list Z) :=
 (* the destination of the rint reader is the two's complement residue of the previous value *)
 Definition x_ri_seqd (k : nat) (hex : bool) (old : Z) (n : nat) (l : list Z) :=
   tr4 (read_many_into (fun s cur => ri_read_into k hex s (limbs_of (Nat.pow 2 k) (ri_unsigned k cur))) n (from_chars l) old).
-Definition x_poly_seqd (bal : bool) (p : Z) (old : list Z) (n : nat) (l : list Z) :=
-  tr4 (read_many_into (fun s cur => poly_read_into 0 0 1 (elt_read (x_init bal p)) s 0 cur) n (from_chars l)
+(* coefficient reader of the ring: Integer read ; init   or   num_get[lo,hi] ; init *)
+Definition x_coef_rd (bal word : bool) (lo hi p : Z) (s : stream) : Z * stream :=
+  if word then elt_read_word lo hi (x_init bal p) s 0 else elt_read (x_init bal p) s.
+Definition x_poly_seqd (bal word : bool) (lo hi p : Z) (old : list Z) (n : nat) (l : list Z) :=
+  tr4 (read_many_into (fun s cur => poly_read_into 0 0 1 (x_coef_rd bal word lo hi p) s cur) n (from_chars l)
                       (map (x_init bal p) old)).
+(* the same with the unrepaired body; the flag says that the next read is undefined *)
+Definition x_poly_seqd0 (bal word : bool) (lo hi p : Z) (old : list Z) (n : nat) (l : list Z) :=
+  let '(t, u) := read_many_into_opt (fun s cur => poly_read_into_v0 0 0 1 (x_coef_rd bal word lo hi p) s cur) n (from_chars l)
+                      (map (x_init bal p) old) in (tr4 t, u).
 (* Poly1Dom::write, then Poly1Dom::read of that text into a destination holding `old` *)
-Definition x_poly_wr (var : list Z) (bal : bool) (p : Z) (R old : list Z) :=
+Definition x_poly_wr (var : list Z) (bal word : bool) (lo hi p : Z) (R old : list Z) :=
   let t := x_poly_write var bal p R in
-  let '(P, s) := poly_read_into 0 0 1 (elt_read (x_init bal p)) (from_chars t) 0 (map (x_init bal p) old) in
+  let '(P, s) := poly_read_into 0 0 1 (x_coef_rd bal word lo hi p) (from_chars t) (map (x_init bal p) old) in
   (t, (P, rest s, eofb s, failb s)).
+Definition x_poly_wr0 (var : list Z) (bal word : bool) (lo hi p : Z) (R old : list Z) :=
+  let t := x_poly_write var bal p R in
+  (t, match poly_read_into_v0 0 0 1 (x_coef_rd bal word lo hi p) (from_chars t) (map (x_init bal p) old) with
+      | Some (P, s) => Some (P, rest s, eofb s, failb s)
+      | None => None
+      end).
